@@ -199,7 +199,8 @@ class C43(Prop):
         "dimension normal forms convert identically and never raise (C43_dimension_sound); "
         "every SI_units entry is well-formed (C43_tables_wellformed); material constants of "
         "every class keep and recover their SI values in and across unit systems "
-        "(C43_material_roundtrip[_any_table]).  The model is tied to the code on every run "
+        "(C43_material_roundtrip[_any_table]); the rational instance executed by the tie is the "
+        "real instance on embedded data (C43_transfer).  The model is tied to the code on every run "
         "by executing both in exact rationals on random unit systems, unit strings (incl. "
         "whitespace, markers, repeated units, negative/zero powers, malformed strings), "
         "scalar/array/integer values, constructor arguments and material classes, Coq "
@@ -209,9 +210,10 @@ class C43(Prop):
         "units gives the same SI solution' — checked by running pp.SinglePhaseFlow on a small "
         "fractured Cartesian grid with scaled m/kg and comparing SI pressures/fluxes to 1e-8. "
         "Theorems are over exact reals (x**float(p) = Rpower on positive x); floating-point "
-        "rounding is covered only by the 1e-9 relative comparison of the tie. The Q instance "
-        "executed in the tie and the R instance of the theorems are instances of one "
-        "polymorphic definition (no transfer lemma proved: instance independence is trusted). "
+        "rounding is covered only by the 1e-9 relative comparison of the tie. For convert_units "
+        "the Q instance executed in the tie is proved to be the R instance of the theorems on "
+        "the embedded data (C43_transfer); for Units.__init__ and the material-constant "
+        "wrappers (which only call convert) no separate transfer lemma is stated. "
         "Decimal non-integer powers are proved (round trip, composition) but executed only "
         "against the float oracle; C43_dimension_sound covers integer powers only. Power "
         "strings in exponent/inf/nan/underscore notation and method/private attribute names "
@@ -234,8 +236,6 @@ class C43(Prop):
             "non-convert case")
     trusted = ["translator harness/translator/units_tables.py (fail-closed, grammar in its "
                "docstring)",
-               "Q and R instances of the polymorphic model compute the same function (no "
-               "transfer lemma)",
                "floats/ints handed to the implementation are represented exactly; comparison "
                "|impl-model| <= 1e-9*|model| inside Coq"]
     assumptions = ["base units are positive numbers",
